@@ -237,6 +237,49 @@ def _check_own(ctx):
                   "after a key record has moved in %s, the chain is searched by key (lookup / stored-key comparison) while it still links to the freed slot" % fn.name,
                   where=where(fn, hit if hit is not None else moved))
     check_relink_values(ctx, prog, R, eff, moved_arms)
+    check_offsets_unordered(ctx, prog)
+
+
+ORDERING = ("core::cmp::PartialOrd::lt", "core::cmp::PartialOrd::le", "core::cmp::PartialOrd::gt", "core::cmp::PartialOrd::ge",
+            "core::cmp::PartialOrd::partial_cmp", "core::cmp::Ord::cmp", "core::cmp::Ord::max", "core::cmp::Ord::min", "core::cmp::max", "core::cmp::min")
+
+
+def _orders_offsets(t):
+    return (t.get("callee") or "") in ORDERING and any("Offset<" in g for g in (t.get("gargs") or []))
+
+
+def check_offsets_unordered(ctx, prog):
+    """Position in a bucket chain and position in the file are unrelated: a freed slot in front of the file is re-used
+    for the newest record.  The map layer (lookup, predecessor search, re-link, put / delete, iterators) may therefore
+    compare record offsets for identity only; an ordering comparison there (`while offset > key_offset`, `if old < new`)
+    encodes the belief "newer records lie behind older ones", which holds until the first slot is recycled."""
+    from .roles import M_DBXXX
+    bad = []
+    n = 0
+    for f in sorted(prog.fns.values(), key=lambda x: x.id):
+        if f.crate != "abyssiniandb" or f.module != M_DBXXX:
+            continue
+        for b, t in f.calls():
+            if f.is_cleanup(b):
+                continue
+            if (t.get("callee") or "").startswith("core::cmp::") and any("Offset<" in g for g in (t.get("gargs") or [])):
+                n += 1
+                if _orders_offsets(t):
+                    bad.append((f, b, t))
+    for f, b, t in bad:
+        owner = f
+        while owner.kind == "Closure" and owner.parent in prog.fns:
+            owner = prog.fns[owner.parent]
+        ctx.fail("relink", "%s:offsets-ordered" % owner.name,
+                 "%s orders two record offsets with %s: chain order and file order are unrelated once a freed slot has been re-used"
+                 % (owner.name, (t.get("callee") or "").rsplit("::", 1)[-1]), where=where(f, b))
+    if not bad:
+        ctx.ok("relink", "offsets-compared-for-identity-only", "%d comparisons of record offsets in the map layer, none of them an ordering" % n)
+    ctx.floor("relink", "comparisons of record offsets in the map layer", n, 2)
+    from . import poscontrol
+    pp = poscontrol.prog()
+    seen = [1 for g in pp.fns.values() if g.name == "orders_offsets" for b, t in g.calls() if _orders_offsets(t)]
+    ctx.check(bool(seen), "positive-control", "offsets-ordered", "the ordering-comparison detector does not see the planted `a < b` on offsets in the fixture")
 
 
 def check_relink_values(ctx, prog, R, eff, moved_arms):
